@@ -130,6 +130,7 @@ pub struct Driver {
     pub snaps: Vec<SeqNo>,
     pub opidx: u64,
     pub clock: u64,
+    pub clock_ms: u64,
     pub filter_log: Option<Arc<crate::cfilter::FilterLog>>,
     /// seqnos of version-changing ops done with watermark tight while no snapshot was held
     pub last_op_info: OpInfo,
@@ -211,6 +212,7 @@ impl Driver {
             snaps: vec![],
             opidx: 0,
             clock: 1_000_000,
+            clock_ms: 0,
             filter_log,
             last_op_info: OpInfo::default(),
             value_tag: b'v',
@@ -329,7 +331,7 @@ impl Driver {
             sealed: last.sealed.len(),
             active_len: last.active.len(),
             snaps: self.snaps.clone(),
-            clock: self.clock,
+            clock: self.clock * 1000 + self.clock_ms,
         }
     }
 
@@ -677,6 +679,11 @@ impl Driver {
                         }
                         ing.finish().map_err(|e| format!("ingest finish: {e:?}"))?;
                     }
+                    if items.is_empty() && self.cfg.blob.is_some() {
+                        // the blob tree's ingestion flushes the memtables even when it received nothing
+                        self.model.rotate();
+                        self.model.flush_sealed();
+                    }
                     if !items.is_empty() {
                         self.model.rotate();
                         self.model.flush_sealed();
@@ -696,9 +703,11 @@ impl Driver {
                 }
                 Op::Tick { secs } => {
                     self.clock += secs;
-                    lsm_tree::verif_hooks::set_now(Some(std::time::Duration::from_secs(
-                        self.clock,
-                    )));
+                    self.install_clock();
+                }
+                Op::TickMs { ms } => {
+                    self.clock_ms += ms;
+                    self.install_clock();
                 }
                 Op::Snap => {
                     self.snaps.push(self.visible.get());
@@ -793,6 +802,6 @@ impl Driver {
 
     /// Sets the (thread-local) clock override to this driver's clock.
     pub fn install_clock(&self) {
-        lsm_tree::verif_hooks::set_now(Some(std::time::Duration::from_secs(self.clock)));
+        lsm_tree::verif_hooks::set_now(Some(std::time::Duration::from_millis(self.clock * 1000 + self.clock_ms)));
     }
 }
